@@ -432,10 +432,25 @@ func compute(tier string, seed int64, dir string) *Shared {
 			}
 			sort.Ints(want)
 			sort.Ints(got)
-			if fmt.Sprint(want) != fmt.Sprint(got) {
+			differs := fmt.Sprint(want) != fmt.Sprint(got)
+			if fr.pkg.InsWhat != "" {
+				// inserted material other than blanks: C07 only asks that no diagnostic lands ON the inserted text
+				// (appearing / disappearing diagnostics are the locality property's business)
+				differs = false
+				for _, o := range got {
+					if o == -1 {
+						differs = true
+					}
+				}
+			}
+			if differs {
 				name := variants[i].Info.Name
-				s.fail("C07", "C07/"+name+"/layout-dependent-position",
-					fmt.Sprintf("%s: inserting blanks between tokens of %s moves/changes its diagnostics: offsets %v on the original, %v (mapped back) on the perturbed file", name, fr.pkg.BaseKey, want, got),
+				class, what := "layout-dependent-position", "blanks between tokens"
+				if fr.pkg.InsWhat != "" {
+					class, what = "context-dependent-position", fr.pkg.InsWhat
+				}
+				s.fail("C07", "C07/"+name+"/"+class,
+					fmt.Sprintf("%s: inserting %s of %s moves/changes its diagnostics: offsets %v on the original, %v (mapped back) on the perturbed file", name, what, fr.pkg.BaseKey, want, got),
 					map[string]interface{}{"package": fr.pkg.Name, "file": fr.file.Name, "checker": name, "origin": fr.pkg.Origin,
 						"original_offsets": want, "perturbed_offsets_mapped": got, "perturbed_source": clip(string(fr.file.Src), 4000)})
 			}
